@@ -81,8 +81,11 @@ def run_children(check_id, tier, seed, units, timeout):
 def main(argv=None):
     import argparse
 
+    import logging
+
     from . import checks
 
+    logging.disable(logging.CRITICAL)
     ap = argparse.ArgumentParser()
     ap.add_argument("check")
     ap.add_argument("--tier", default=os.environ.get("VERIF_TIER", "quick"))
